@@ -481,3 +481,61 @@ def rule_state_layout(ctx):
 
 
 RULES.append(("C13.l", "layout of the packed task state word", rule_state_layout))
+
+
+def _bit_implied(mcs, bit, want):
+    """do the mask comparisons (op, X, mask, value) establish that `bit` of the state is `want` (0/1)?"""
+    for mc in mcs:
+        if mc is None:
+            continue
+        op, _, m, v = mc
+        if not (m & bit):
+            continue
+        if op == "==" and bool(v & bit) == bool(want):
+            return True
+        # single-bit mask: != 0 means set, != bit means clear
+        if op == "!=" and m == bit and bool(v & bit) != bool(want):
+            return True
+    return False
+
+
+def rule_union_member(ctx):
+    """The task stores its future and its output in one union. A handle (waker, promise, cancel token) that finds itself responsible
+    for the content drops the *future* only in a polling phase (POLLING set) and the *output* only in the Completed phase
+    (POLLING clear and CLOSED clear: a Closed task has no output any more - it was taken or never produced)."""
+    P = ctx.prog
+    C = consts(P)
+    if None in C.values():
+        return ctx.missing("task state constants")
+    n = 0
+    for b in task_bodies(P):
+        if b.kind != "Closure":
+            continue
+        owner = K.owner_fn(P, b).name
+        if owner.startswith(TASK + "runnable::") or owner.startswith(TASK + "promise::poll"):
+            continue  # the Runnable / the polling promise own the content by construction (C13.e, C13.f)
+        for s in b.calls(r"ManuallyDrop::(drop|take)$"):
+            mem = set()
+            for x in b.origins(s.args()[0], s):
+                _, names = origin_proj_names(x)
+                mem |= set(nm[1] for nm in names if nm[0] == "f")
+            mem &= {"future", "output"}
+            if len(mem) != 1:
+                ctx.ob("union-member|%s" % b.name, False, "cannot tell which union member is dropped", [s])
+                continue
+            member = next(iter(mem))
+            mcs = []
+            for cs in P.creation_sites(b):
+                mcs += [mask_cmp(c) for c in cs.body.conditions(cs)]
+            n += 1
+            if member == "output":
+                ok = _bit_implied(mcs, C["CLOSED"], 0) and _bit_implied(mcs, C["POLLING"], 0)
+                msg = "the output is dropped only in the Completed phase: POLLING clear and CLOSED clear (a Closed task holds no output)"
+            else:
+                ok = _bit_implied(mcs, C["POLLING"], 1)
+                msg = "the future is dropped by a handle only in a polling phase (POLLING set)"
+            ctx.ob("union-member|%s|%s" % (owner, member), ok, msg, [s])
+    ctx.ob("floor|union-member-drops", n >= 8, "expected >= 8 handle-side drops of the task's future/output (found %d)" % n)
+
+
+RULES.append(("C13.m", "which union member (future / output) a handle may drop in which phase", rule_union_member))
